@@ -65,6 +65,17 @@ theorem cleanFinish_base (c : Cfg) (ar aq : Nat) (s2 : S) (hcl2 : s2.cleaned = t
   · intro hh; apply h31; rw [← hcu.1]; exact hh
   · exact hcl2
 
+@[simp] theorem cleanBody_cleaned (c : Cfg) (s : S) : (cleanBody c s).cleaned = true := by
+  unfold cleanBody
+  simp only
+  split <;> simp
+
+/-- without an upstream reset `cleanBody` appends exactly the access-log event -/
+theorem cleanBody_trace_done (c : Cfg) (s : S) (h : s.procDone = true) :
+    (cleanBody c s).trace = s.trace ++ [Ev.log s.respCode s.flags] := by
+  unfold cleanBody
+  simp [h]
+
 /-- `cleanBody` only appends upstream-reset events and the access-log event -/
 theorem cleanBody_snd (c : Cfg) (s : S) : snd (cleanBody c s).trace = snd s.trace := by
   unfold cleanBody
